@@ -68,12 +68,14 @@ def run_shard(shard, ctx):
                     # used with this batch of control variables, then update_Sigma, then used again with the same array
                     cond, kw, (M, b, _) = objs.mk_cond(kind, M, b, Sy * 2.5, ctor=ctor)
                     cond.set_y(J(al.points(N, Dy, salt=9)), **kw)
-                    cond.set_control_variable(kw["u"])
+                    objs.exercise_cond(cond, kw)
                     cond.update_Sigma(J(Sy[:1]))
                     Sy = np.tile(Sy[:1], (R, 1, 1))
                 elif prep == "updated":
                     # built with another noise covariance, then updated in place before set_y
                     cond, kw, (M, b, _) = objs.mk_cond(kind, M, b, Sy * 2.5, ctor=ctor)
+                    objs.exercise_cond(cond)
+                    cond.set_y(J(al.points(N, Dy, salt=9)))
                     cond.update_Sigma(J(Sy))
                 elif prep == "sliced":
                     M2 = np.concatenate([M[:1] * -0.5 + 1.0, M], axis=0)
